@@ -78,6 +78,8 @@ func genValid(r *vkit.Run, i int, salt uint16) (in *input) {
 		reserved = labelError
 	case 27:
 		reserved = labelNetErr
+	case 37:
+		reserved = labelBadPack
 	}
 
 	var lead [][]byte
